@@ -266,7 +266,7 @@ def node_recipe(rng, kind, sh=None, dtype=None, meta_p=0.25):
             k, s, p = [k[0]] * 2, [s[0]] * 2, [p[0]] * 2
         kw = [["kernel_size", hp(rng, k)], ["stride", hp(rng, s)], ["padding", hp(rng, p)]]
     elif kind == "Flatten":
-        s = shape(rng, rank=rng.randrange(1, 6)) if sh is None else sh
+        s = shape(rng, rank=rng.randrange(1, 6), hi=(3 if rng.random() < 0.6 else 20)) if sh is None else sh
         rank = len(s)
         a = rng.randrange(0, rank)
         b = rng.randrange(a, rank)
@@ -288,9 +288,16 @@ def node_recipe(rng, kind, sh=None, dtype=None, meta_p=0.25):
 
 def shape_arg(rng, s, key):
     """a shape given as ndarray, list, tuple or dict"""
-    c = rng.choice(["ndarray", "ndarray32", "list", "tuple", "dict"])
+    c = rng.choice(["ndarray", "ndarray32", "ndarray_narrow", "list", "tuple", "dict"])
     a = {"a": "<i8", "sh": [len(s)], "x": np.array(s, dtype="<i8").tobytes().hex()}
     if c == "ndarray":
+        return a
+    if c == "ndarray_narrow":
+        # the narrowest integer dtype that holds the entries (their *product* need not fit)
+        for d in ["|u1", "|i1", "<u2", "<i2", "<i4"]:
+            info = np.iinfo(np.dtype(d))
+            if all(info.min <= v <= info.max for v in s):
+                return {"a": d, "sh": [len(s)], "x": np.array(s, dtype=np.dtype(d)).tobytes().hex()}
         return a
     if c == "ndarray32":
         return {"a": "<i4", "sh": [len(s)], "x": np.array(s, dtype="<i4").tobytes().hex()}
@@ -448,7 +455,16 @@ def consistent_graph(rng, max_nodes=8, erase=True, wrong_output=True):
                     erased.append(name)
                 elif t == "Output":
                     if wrong_output and rng.random() < 0.4:
-                        wrong = [x + 1 for x in truth[name][0]] + ([2] if rng.random() < 0.3 else [])
+                        t = truth[name][0]
+                        how = rng.random()
+                        if how < 0.4:
+                            wrong = [x + 1 for x in t] + ([2] if rng.random() < 0.3 else [])
+                        elif how < 0.6 and len(t) >= 2:
+                            wrong = t[1:]                       # same trailing entries, lower rank (broadcastable)
+                        elif how < 0.8:
+                            wrong = [t[-1]] + list(t)            # same entries, higher rank
+                        else:
+                            wrong = [1] * len(t) if any(x != 1 for x in t) else list(t) + [3]
                         rec["kwargs"] = [["output_type", shape_arg(rng, wrong, "output")]]
                     else:
                         rec["kwargs"] = [["output_type", None]]
